@@ -336,3 +336,232 @@ Proof.
   - assert ((i <? 8 * (0 + N.of_nat (n * 4096))) = false) as -> by lia.
     rewrite andb_false_r. reflexivity.
 Qed.
+
+(* ------------------------------------------------------------------ *)
+(** * 4. contiguous length *)
+
+Module PMP := FMapFacts.WProperties PositiveMap.
+
+Definition exact_contig (b : bitfield) (c : N) : Prop :=
+  (forall i, i < c -> bf_get b i = true) /\ bf_get b c = false.
+
+Lemma exact_contig_unique b c c' : exact_contig b c -> exact_contig b c' -> c = c'.
+Proof.
+  intros [H1 H2] [H1' H2'].
+  destruct (N.lt_trichotomy c c') as [H|[H|H]]; [|exact H|].
+  - specialize (H1' c H). congruence.
+  - specialize (H1 c' H). congruence.
+Qed.
+
+Lemma exact_contig_empty : exact_contig bf_empty 0.
+Proof.
+  split.
+  - intros i Hi. lia.
+  - unfold bf_get, bf_empty. cbn [bf_bits]. apply nm_mem_empty.
+Qed.
+
+(* pigeonhole: a run of k consecutive members needs k elements *)
+Lemma run_le_cardinal k : forall (m : nmap unit) e,
+  (forall j, j < N.of_nat k -> nm_mem (e + j) m = true) ->
+  (k <= PositiveMap.cardinal m)%nat.
+Proof.
+  induction k as [|k IH]; intros m e H; [lia|].
+  assert (He : nm_mem e m = true).
+  { replace e with (e + 0) by lia. apply H. lia. }
+  unfold nm_mem, nm_get in He.
+  destruct (PositiveMap.find (N.succ_pos e) m) as [v|] eqn:Ef; [|discriminate].
+  set (x := N.succ_pos e) in *.
+  assert (Hc : PositiveMap.cardinal m = S (PositiveMap.cardinal (PositiveMap.remove x m))).
+  { apply (PMP.cardinal_2 (m := PositiveMap.remove x m) (x := x) (e := v)).
+    - apply PositiveMap.remove_1. reflexivity.
+    - intros y. destruct (Pos.eq_dec x y) as [<-|Hne].
+      + rewrite PositiveMap.gss. exact Ef.
+      + rewrite PositiveMap.gso by congruence. rewrite PositiveMap.gro by congruence. reflexivity. }
+  rewrite Hc. apply le_n_S.
+  apply (IH (nm_del e m) (e + 1)).
+  intros j Hj. rewrite nm_mem_del.
+  assert (e + 1 + j =? e = false) as -> by lia. cbn [negb andb].
+  replace (e + 1 + j) with (e + (j + 1)) by lia. apply H. lia.
+Qed.
+
+Lemma bf_skip_set_spec fuel : forall b e,
+  let c := bf_skip_set fuel b e in
+  e <= c /\ (forall i, e <= i < c -> bf_get b i = true) /\
+  (bf_get b c = false \/ c = e + N.of_nat fuel).
+Proof.
+  induction fuel as [|f IH]; intros b e; cbn [bf_skip_set].
+  - cbv zeta. split; [lia|]. split; [intros; lia|]. right. lia.
+  - cbv zeta. destruct (bf_get b e) eqn:E.
+    + destruct (IH b (e + 1)) as (H1 & H2 & H3). split; [lia|]. split.
+      * intros i Hi. destruct (N.eq_dec i e) as [->|Hne]; [exact E|]. apply H2. lia.
+      * destruct H3 as [H3|H3]; [left; exact H3|right; lia].
+    + split; [lia|]. split; [intros; lia|]. left. exact E.
+Qed.
+
+(* the fuel [S (cardinal)] always suffices: the loop stops on an index that is not set *)
+Lemma bf_skip_set_stops b e :
+  let c := bf_skip_set (S (PositiveMap.cardinal (bf_bits b))) b e in
+  e <= c /\ (forall i, e <= i < c -> bf_get b i = true) /\ bf_get b c = false.
+Proof.
+  cbv zeta. destruct (bf_skip_set_spec (S (PositiveMap.cardinal (bf_bits b))) b e) as (H1 & H2 & H3).
+  split; [exact H1|]. split; [exact H2|].
+  destruct H3 as [H3|H3]; [exact H3|].
+  exfalso.
+  assert (S (PositiveMap.cardinal (bf_bits b)) <= PositiveMap.cardinal (bf_bits b))%nat; [|lia].
+  apply (run_le_cardinal _ (bf_bits b) e).
+  intros j Hj. apply H2. lia.
+Qed.
+
+Lemma update_contig_exact b u c :
+  exact_contig b c -> 0 < bu_length u ->
+  exact_contig (bf_apply b u) (update_contig c (bf_apply b u) u).
+Proof.
+  intros [HA HB] Hl. unfold update_contig.
+  set (b' := bf_apply b u). set (s := bu_start u) in *. set (l := bu_length u) in *.
+  assert (Hg : forall i, bf_get b' i =
+                         if (s <=? i) && (i <? s + l) then negb (bu_drop u) else bf_get b i).
+  { intros i. apply bf_get_apply. }
+  destruct (bu_drop u) eqn:Ed; cbn [negb] in Hg.
+  - destruct (N.ltb_spec s c) as [Hsc|Hsc].
+    + split.
+      * intros i Hi. rewrite Hg. assert ((s <=? i) && (i <? s + l) = false) as -> by lia.
+        apply HA. lia.
+      * rewrite Hg. assert ((s <=? s) && (s <? s + l) = true) as -> by lia. reflexivity.
+    + split.
+      * intros i Hi. rewrite Hg. assert ((s <=? i) && (i <? s + l) = false) as -> by lia.
+        apply HA. exact Hi.
+      * rewrite Hg. destruct ((s <=? c) && (c <? s + l)); [reflexivity | exact HB].
+  - destruct ((c <=? s + l) && (s <=? c)) eqn:Ef.
+    + destruct (bf_skip_set_stops b' (s + l)) as (H1 & H2 & H3).
+      set (c' := bf_skip_set (S (PositiveMap.cardinal (bf_bits b'))) b' (s + l)) in *.
+      split; [|exact H3].
+      intros i Hi. destruct (N.lt_ge_cases i (s + l)) as [Hie|Hie].
+      * rewrite Hg. destruct ((s <=? i) && (i <? s + l)) eqn:Er; [reflexivity|].
+        apply HA. lia.
+      * apply H2. lia.
+    + split.
+      * intros i Hi. rewrite Hg. destruct ((s <=? i) && (i <? s + l)); [reflexivity|].
+        apply HA. exact Hi.
+      * rewrite Hg. assert ((s <=? c) && (c <? s + l) = false) as -> by lia. exact HB.
+Qed.
+
+(* ------------------------------------------------------------------ *)
+(** * 2. dirty-page tracking *)
+
+Lemma bf_dirty_set_pages_prefix fuel : forall b s l v,
+  exists ext, bf_dirty (bf_set_pages fuel b s l v) = bf_dirty b ++ ext.
+Proof.
+  induction fuel as [|f IH]; intros b s l v; cbn [bf_set_pages].
+  - exists []. now rewrite app_nil_r.
+  - destruct (l =? 0).
+    + exists []. now rewrite app_nil_r.
+    + cbv zeta.
+      match goal with |- context[bf_set_pages f ?b1 ?s1 ?l1 v] =>
+        destruct (IH b1 s1 l1 v) as (ext & ->) end.
+      cbn [bf_dirty].
+      match goal with |- context[if ?c then _ else _] => destruct c end.
+      * exists ([s / PAGE_BITS] ++ ext). now rewrite app_assoc.
+      * exists ext. reflexivity.
+Qed.
+
+Lemma bf_dirty_set_pages_sound fuel : forall b s l v i,
+  bf_get (bf_set_pages fuel b s l v) i <> bf_get b i ->
+  In (i / PAGE_BITS) (bf_dirty (bf_set_pages fuel b s l v)).
+Proof.
+  induction fuel as [|f IH]; intros b s l v i; cbn [bf_set_pages].
+  - intros H. congruence.
+  - destruct (l =? 0); [intros H; congruence|].
+    cbv zeta.
+    set (n := N.min l (PAGE_BITS - s mod PAGE_BITS)).
+    set (b1 := {| bf_bits := bits_set (bf_bits b) s (N.to_nat n) v; bf_dirty := _ |}).
+    intros H.
+    destruct (bool_dec (bf_get (bf_set_pages f b1 (s + n) (l - n) v) i) (bf_get b1 i)) as [E|E].
+    + rewrite E in H.
+      destruct (bf_dirty_set_pages_prefix f b1 (s + n) (l - n) v) as (ext & ->).
+      apply in_or_app. left.
+      unfold bf_get in H. unfold b1 in H. cbn [bf_bits] in H.
+      rewrite nm_mem_bits_set, N2Nat.id in H.
+      destruct ((s <=? i) && (i <? s + n)) eqn:Er; [|congruence].
+      assert (Hp : i / PAGE_BITS = s / PAGE_BITS) by (unfold n, PAGE_BITS in *; lia).
+      rewrite Hp. unfold b1. cbn [bf_dirty].
+      destruct (bits_differ (bf_bits b) s (N.to_nat n) v) eqn:Ed.
+      * cbn [andb]. destruct (mem_N (s / PAGE_BITS) (bf_dirty b)) eqn:Em; cbn [negb].
+        -- apply mem_N_In. exact Em.
+        -- apply in_or_app. right. left. reflexivity.
+      * exfalso. apply H. symmetry. apply (bits_differ_false _ _ _ _ Ed).
+        rewrite N2Nat.id. lia.
+    + apply IH. exact E.
+Qed.
+
+(* every page that contains a changed bit is dirty afterwards *)
+Lemma bf_dirty_set_range_sound b s l v i :
+  bf_get (bf_set_range b s l v) i <> bf_get b i ->
+  In (i / PAGE_BITS) (bf_dirty (bf_set_range b s l v)).
+Proof. unfold bf_set_range. apply bf_dirty_set_pages_sound. Qed.
+
+(* pages are only ever added, at the end *)
+Lemma bf_dirty_set_range_prefix b s l v :
+  exists ext, bf_dirty (bf_set_range b s l v) = bf_dirty b ++ ext.
+Proof. unfold bf_set_range. apply bf_dirty_set_pages_prefix. Qed.
+
+Lemma bf_dirty_set_range_mono b s l v p :
+  In p (bf_dirty b) -> In p (bf_dirty (bf_set_range b s l v)).
+Proof.
+  intros H. destruct (bf_dirty_set_range_prefix b s l v) as (ext & ->).
+  apply in_or_app. left. exact H.
+Qed.
+
+Lemma In_nrange n : forall off x, In x (nrange off n) -> off <= x < off + N.of_nat n.
+Proof.
+  induction n as [|n IH]; intros off x H; cbn [nrange In] in H; [contradiction|].
+  destruct H as [<-|H]; [lia|]. apply IH in H. lia.
+Qed.
+
+(* a page image depends only on the bits of that page *)
+Lemma page_bytes_ext m m' p :
+  (forall j, j < PAGE_BITS -> nm_mem (p * PAGE_BITS + j) m = nm_mem (p * PAGE_BITS + j) m') ->
+  page_bytes m p = page_bytes m' p.
+Proof.
+  intros H. unfold page_bytes. apply map_ext_in. intros k Hk.
+  apply In_nrange in Hk. change (N.of_nat (N.to_nat PAGE_BYTES)) with 4096 in Hk.
+  unfold PAGE_BYTES in Hk.
+  assert (Hb : forall t, t < 8 -> nm_mem (8 * k + t) m = nm_mem (8 * k + t) m').
+  { intros t Ht. replace (8 * k + t) with (p * PAGE_BITS + (8 * k + t - p * PAGE_BITS))
+      by (unfold PAGE_BITS; lia).
+    apply H. unfold PAGE_BITS. lia. }
+  unfold bits_byte. rewrite !Hb by lia. reflexivity.
+Qed.
+
+(* hence: a page that is not dirty after a range write has an unchanged image,
+   i.e. writing the dirty pages writes every changed page *)
+Lemma page_bytes_clean_set_range b s l v p :
+  ~ In p (bf_dirty (bf_set_range b s l v)) ->
+  page_bytes (bf_bits (bf_set_range b s l v)) p = page_bytes (bf_bits b) p.
+Proof.
+  intros Hn. apply page_bytes_ext. intros j Hj.
+  fold (bf_get (bf_set_range b s l v) (p * PAGE_BITS + j)).
+  fold (bf_get b (p * PAGE_BITS + j)).
+  destruct (bool_dec (bf_get (bf_set_range b s l v) (p * PAGE_BITS + j))
+                     (bf_get b (p * PAGE_BITS + j))) as [E|E]; [exact E|].
+  exfalso. apply Hn. apply bf_dirty_set_range_sound in E.
+  replace ((p * PAGE_BITS + j) / PAGE_BITS) with p in E by (unfold PAGE_BITS in *; lia).
+  exact E.
+Qed.
+
+Print Assumptions bf_get_set_range.
+Print Assumptions bf_get_apply.
+Print Assumptions bf_dirty_set_range_sound.
+Print Assumptions bf_dirty_set_range_prefix.
+Print Assumptions bf_dirty_set_range_mono.
+Print Assumptions page_bytes_clean_set_range.
+Print Assumptions page_bit_page_bytes.
+Print Assumptions length_page_bytes.
+Print Assumptions bytes_ok_page_bytes.
+Print Assumptions load_bits_spec_gen.
+Print Assumptions load_bits_spec.
+Print Assumptions load_page_bytes.
+Print Assumptions run_le_cardinal.
+Print Assumptions bf_skip_set_stops.
+Print Assumptions update_contig_exact.
+Print Assumptions exact_contig_unique.
+Print Assumptions exact_contig_empty.
